@@ -15,7 +15,8 @@ def run_plan(case):
     b = product.build_product(level=case.get("level", "1.5"), images=case.get("images", (("HH", None, 3, 2),)), seed=case["seed"],
                               leader=case.get("leader"), nfp=case.get("nfp"), ctx=case.get("ctx"), plan=plan,
                               overrides=case.get("overrides"), line_overrides=case.get("line_overrides"),
-                              blank=case.get("blank"), kind=case.get("kind"), sample=case.get("sample"))
+                              blank=case.get("blank"), kind=case.get("kind"), sample=case.get("sample"),
+                              informational=case.get("informational"))
     res = {"case": case, "bad": [], "n": 0, "open": "ok"}
     fs = case.get("fs", "local")
     url = imgrun.put_on_fs(b, fs, f"lf_{case['seed']}_{case.get('k')}")
